@@ -210,6 +210,16 @@ func runCheck(id, tier string, updateBaseline bool, only string) int {
 				return
 			}
 			r := runSolvers(q, timeout, needTwo)
+			if r.Status != "unsat" && r.Status != "sat" && o.Label != "" {
+				// retry with the quantified hypotheses of other labels dropped (sound: fewer assumptions)
+				if qs := o.QuerySliced(o.Label); qs != q {
+					r2 := runSolvers(qs, timeout, needTwo)
+					if r2.Status == "unsat" {
+						r2.Solver += " [hypotheses sliced to label " + labelStem(o.Label) + "]"
+						r = r2
+					}
+				}
+			}
 			if r.Status != "unsat" && r.Status != "sat" {
 				r2 := runSolvers(q, timeout*3, false)
 				if r2.Status == "unsat" || r2.Status == "sat" {
